@@ -235,6 +235,8 @@ impl<'a> RefCtx<'a> {
             let c = gets(ch, "c");
             if c == "pk" {
                 out.extend_from_slice(&R::enc_k(&self.pk_of::<R>(geti(ch, "k"))));
+            } else if let Some(name) = c.strip_prefix("dst:") {
+                out.extend_from_slice(&self.tables.tag(R::NAME, name));
             } else {
                 out.extend_from_slice(&self.conc.atom(c));
             }
